@@ -126,7 +126,7 @@ def extreme_atoms():
 TYPES = [None, "number", "integer", "string", "array", "object", ["number", "string"], ["object", "array", "null"]]
 
 
-TYPES_QUICK = [None, "integer", "string", "object", ["object", "array", "null"]]
+TYPES_QUICK = [None, "number", "integer", "string", "object", ["object", "array", "null"]]
 
 
 def extreme_schemas(tier):
